@@ -1,7 +1,8 @@
 /-
   C03 — byte ranges a component may write.
   * `gptRegions` / `mbrRegions` mirror the offsets of partition/gpt/table.go `Write`
-    (protective MBR entries at 446, backup array, backup header, primary array, primary header)
+    (backup array, backup header, primary array, primary header, then the protective MBR entries at 446 —
+    last since fix 5e74ca3)
     and partition/mbr/table.go `Write` (66 bytes at 446), in program order, for a table the
     library initialised itself (128 entries of 128 bytes).
   * `subWrite` mirrors backend/substorage.go `subWritable.WriteAt` (adds the offset, enforces nothing).
@@ -21,8 +22,8 @@ deriving Repr, DecidableEq
 def gptRegions (lss size : Nat) (pmbr : Bool) : List Region :=
   let last := size / lss - 1
   let arrSec := gptArrayBytes / lss
-  (if pmbr then [⟨446, 66⟩] else []) ++
-  [⟨(last - arrSec) * lss, gptArrayBytes⟩, ⟨last * lss, lss⟩, ⟨2 * lss, gptArrayBytes⟩, ⟨lss, lss⟩]
+  [⟨(last - arrSec) * lss, gptArrayBytes⟩, ⟨last * lss, lss⟩, ⟨2 * lss, gptArrayBytes⟩, ⟨lss, lss⟩] ++
+  (if pmbr then [⟨446, 66⟩] else [])
 
 def mbrRegions : List Region := [⟨446, 66⟩]
 
